@@ -159,6 +159,16 @@ def targeted_programs():
         ("mixed-permuted-3", W([6, 1, 3]), [["int", 7], ["int", 2], ["tip", 3]], {"k": "l", "x": [3, 1, 2]}),
         ("mixed-wrong-3", W([1, 3, 6]), [["int", 3], ["tip", 2], ["int", 7]], {"k": "l", "x": [1, 2, 3]}),
     ]
+    # per-tip volumes handed over as a tuple / an array: whether that is accepted is the library's business, an oversized or
+    # mismatched element must not get into a command either way
+    for present in ("tuple", "ndarray"):
+        for name, vols in (("fits", [10, 20, 30]), ("oversized-last", [120, 80, 700]), ("oversized-first", [700, 80, 120]), ("too-few", [10, 20])):
+            for opn in ("evo_aspirate", "evo_dispense"):
+                h = gen.header(f"evo/foreign-{present}-{name}-{opn}", "evo", Fraction(1), 200, lws(), flags={"comp": False, "norm": False})
+                h["ops"] = [{"op": opn, "lw": 0, "wells": W([0, 1, 2]), "tips": T([1, 2, 3]), "vols": {"k": "l", "x": vols}, "vols_present": present,
+                             "lc": "Water", "label": "foreign"},
+                            {"op": opn, "lw": 0, "wells": W([3, 4]), "tips": T([4, 5]), "vols": {"k": "l", "x": [5, 6]}, "lc": "Water", "label": "list"}]
+                progs.append(h)
     for name, wells, tips, vols in cases:
         for opn in ("evo_aspirate", "evo_dispense"):
             h = gen.header(f"evo/{name}-{opn}", "evo", Fraction(1), 950, lws(), flags={"comp": False, "norm": False})
